@@ -150,7 +150,7 @@ func refPECertTable(b []byte) (*RefPE, []RefCertEntry, error) {
 	if err != nil {
 		return nil, nil, err
 	}
-	if p.CertVA == 0 && p.CertSize == 0 {
+	if p.CertSize == 0 { // (an address without a size is no table: a stripped signature may leave one behind)
 		return p, nil, nil
 	}
 	va, sz := int(p.CertVA), int(p.CertSize)
